@@ -109,6 +109,8 @@ def run(ctx):
     ctx.section(_key_provenance, ctx, index, funcs)
     ctx.section(_fields, ctx, index)
     ctx.section(_receiver, ctx, index)
+    ctx.section(_typ_syntax, ctx, index)
+    ctx.section(_doc_is_text, ctx, index, funcs)
     from ..keystate import stale_rule
 
     ctx.section(stale_rule, ctx, "C14.stale", funcs, "the normalisation of the parameter entry")
@@ -590,3 +592,153 @@ def _fields(ctx, index):
             else "function.parse never reads arguments.{}: parameters carried there are missing from the result".format(fld),
             line=f.node.lineno,
         )
+
+
+SYNTAX_VALIDATORS = frozenset("builtins.eval builtins.compile ast.parse ast.literal_eval cdd.shared.source_transformer.ast_parse".split())
+
+
+def _typ_syntax(ctx, index, rule="C14.typsyntax"):
+    """
+    "the type is a string that parses as a Python expression": the one type string that is *made up* from prose —
+    the result of `parse_adhoc_doc_for_typ` on the description — must pass a syntactic check (eval / ast.parse /
+    compile of that very string, whose failure skips the store) before it becomes the entry's `typ`. A name
+    white-list over the words of the candidate is not such a check (`Literal[2d, 3d]` has only known names).
+    """
+    adhoc = index.func("cdd.docstring.utils.parse_utils.parse_adhoc_doc_for_typ").qual
+    n_sites = 0
+    for g in index.nontest_funcs():
+        cands = {}
+        for n in iter_own(g.node):
+            if isinstance(n, (ast.Assign, ast.AnnAssign)) and isinstance(getattr(n, "value", None), ast.Call) and index.callee(g.mod, n.value, g) == adhoc:
+                for t in n.targets if isinstance(n, ast.Assign) else [n.target]:
+                    if isinstance(t, ast.Name):
+                        cands[t.id] = n
+        if not cands:
+            continue
+        for n in iter_own(g.node):
+            if not isinstance(n, ast.Assign):
+                continue
+            tg = [t for t in n.targets if isinstance(t, ast.Subscript) and isinstance(t.slice, ast.Constant) and t.slice.value == "typ"]
+            if not tg:
+                continue
+            used = [x.id for x in ast.walk(n.value) if isinstance(x, ast.Name) and x.id in cands]
+            if not used:
+                continue
+            n_sites += 1
+            tname = used[0]
+            ok = False
+            cur = n
+            while cur is not None and cur is not g.node and not ok:
+                par = g.mod.parents.get(cur)
+                for field in ("body", "orelse", "finalbody"):
+                    lst = getattr(par, field, None)
+                    if isinstance(lst, list) and cur in lst:
+                        for prev in lst[: lst.index(cur)]:
+                            for c in ast.walk(prev):
+                                if (
+                                    isinstance(c, ast.Call)
+                                    and index.callee(g.mod, c, g) in SYNTAX_VALIDATORS
+                                    and c.args
+                                    and any(isinstance(x, ast.Name) and x.id == tname for x in ast.walk(c.args[0]))
+                                ):
+                                    ok = True
+                cur = par
+            ctx.ob(
+                rule,
+                g,
+                n,
+                ok,
+                ""
+                if ok
+                else "the type guessed from the description (`{}`) becomes the entry's `typ` without having been parsed "
+                "(eval / ast.parse / compile of the string before the store): a candidate built from prose such as "
+                "`Literal[2d, 3d]` is not a Python expression".format(short(cands[tname].value, 60)),
+            )
+    ctx.floor("stores of a description-derived type", n_sites, 1)
+
+
+_CONSTANT_CLASSES = frozenset("Constant Str Bytes Num NameConstant".split())
+
+
+def _doc_is_text(ctx, index, funcs, rule="C14.strdoc"):
+    """
+    "the description is a string": where a parser takes the interface description out of a syntax node with
+    `get_value(E)`, E must be known to be a constant at that point — `isinstance(E, (Constant, Str))` among the
+    dominating conditions, directly or as a conjunct of a predicate function that guards the store. Otherwise
+    `description = "a" + b`, an f-string or a call puts an `ast` object where the text belongs.
+    """
+    from ..walker import GuardWalker
+
+    gv = index.func("cdd.shared.ast_utils.get_value").qual
+
+    def constant_test(e, want):
+        """`isinstance(<want>, (Constant, ...))` ?"""
+        if not (isinstance(e, ast.Call) and norm(e.func) == "isinstance" and len(e.args) == 2 and norm(e.args[0]) == want):
+            return False
+        names = {norm(x).rpartition(".")[2] for x in (e.args[1].elts if isinstance(e.args[1], ast.Tuple) else [e.args[1]])}
+        return bool(names) and names <= _CONSTANT_CLASSES
+
+    def conjuncts(e):
+        return [y for x in e.values for y in conjuncts(x)] if isinstance(e, ast.BoolOp) and isinstance(e.op, ast.And) else [e]
+
+    def pred_implies(scope, call, want_, depth):
+        """the call `P(..., a, ...)` being true implies isinstance(<want_>, Constant): some argument `a` is a prefix of
+        want_ and every `return` of P has, among its conjuncts, the constant test on the corresponding parameter path or a
+        call of another predicate that implies it"""
+        p_ = index.funcs.get(index.resolve(scope.mod, call.func, scope) or "")
+        if p_ is None or depth == 0:
+            return False
+        binds = index.bound_args(scope.mod, call, scope)
+        for par, a in binds.items():
+            arg = norm(a)
+            if not (want_ == arg or want_.startswith(arg + ".")):
+                continue
+            inner = par + want_[len(arg) :]
+            rets = [r for r in ast.walk(p_.node) if isinstance(r, ast.Return) and r.value is not None]
+            if rets and all(
+                any(constant_test(cj, inner) or (isinstance(cj, ast.Call) and pred_implies(p_, cj, inner, depth - 1)) for cj in conjuncts(r.value))
+                for r in rets
+            ):
+                return True
+        return False
+
+    n_sites = 0
+    seen = set()
+    for g in list(funcs) + [h for h in index.nontest_funcs() if h.mod.name.endswith(".parse") and h.outer is None]:
+        if g.qual in seen:
+            continue
+        seen.add(g.qual)
+        facts_at = {}
+        GuardWalker(on_stmt=lambda st, f: facts_at.__setitem__(id(st), dict(f))).walk_function(g.node)
+        for n in iter_own(g.node):
+            if not (isinstance(n, ast.Assign) and isinstance(n.value, ast.Call) and index.callee(g.mod, n.value, g) == gv and n.value.args):
+                continue
+            if not any(isinstance(t, ast.Subscript) and isinstance(t.slice, ast.Constant) and t.slice.value == "doc" for t in n.targets):
+                continue
+            n_sites += 1
+            want = norm(n.value.args[0])
+            ok = False
+            for text, truth in (facts_at.get(id(n)) or {}).items():
+                if truth is not True:
+                    continue
+                try:
+                    e = ast.parse(text, mode="eval").body
+                except SyntaxError:
+                    continue
+                for c in conjuncts(e):
+                    if constant_test(c, want):
+                        ok = True
+                    elif isinstance(c, ast.Call) and pred_implies(g, c, want, 3):
+                        ok = True
+            ctx.ob(
+                rule,
+                g,
+                n,
+                ok,
+                ""
+                if ok
+                else "the description is taken from `{}` with get_value() but nothing on the way establishes that it is a constant "
+                "(`isinstance({}, (Constant, Str))`, here or in the predicate guarding this arm): for `description = 'a' + b`, an f-string "
+                "or a call the interface description becomes an ast node, not a string".format(want, want),
+            )
+    ctx.floor("descriptions taken out of a syntax node", n_sites, 1)
